@@ -29,4 +29,8 @@ CHECKS = {
         technique="property-based testing: Hypothesis-generated .ini files, selections and CLI overrides against a reference resolver written from OPTIONS.md (model-based differential), observed both through ArchitectureFeatures and through the CLI's --verbose-config output; metamorphic check internal-default == documented bundled sections",
         text="Thousands of generated configuration files with inheritance chains (also across files), option subsets, legal and illegal port mappings and sizes are resolved by the real code and by an independent resolver; error cases must be rejected with a Vela error. A sample runs through vela.main with config paths in bundled/absolute/relative/dot form from three working directories.",
         note="trusted base: reference resolver in lib/props/c18.py (OPTIONS.md reading), Python configparser merge semantics"),
+    "C06": dict(
+        technique="property-based testing: Hypothesis-generated NpuOperation lists with shared register history, round trip through an independent stateful decoder (field-by-field differential against the operation specification); same comparison on operation lists captured from generated compiled networks",
+        text="Lists of 1-8 legal operations of all five kinds are built so that consecutive operations share most register values; the emitted words are decoded by lib/csdec.py with a register file that persists across operations, and every consumed field of every operation must equal the value derived from the operation given (addresses incl. bits 32-39, tiles, strides, precision, kernel, pads, weight/scale ranges per core, activation, scaling, block config), reserved bits zero, alignment rules, waits adjacent to their operation, exactly one stop.",
+        note="trusted base: lib/csdec.py field table (DESIGN.md Appendix A), vendor/npu_regs.py opcode numbers, lib/tflref.py for scale registers"),
 }
